@@ -32,8 +32,8 @@ Definition obs_eqb (a b : obs) : bool :=
 
 Inductive case :=
 (* a configuration: the real SafeCleanHost result of every host in it, strings.ToLower of
-   every encoding it changes, the configuration as decoded, what Parse / DefaultFactory.New did *)
-| CCfg (hosts : list (string * option string)) (lowers : list (string * string)) (s : svc) (o : obs)
+   every encoding it changes, the query_path files os.ReadFile could read, the configuration as decoded, what Parse / DefaultFactory.New did *)
+| CCfg (hosts : list (string * option string)) (lowers : list (string * string)) (files : list string) (s : svc) (o : obs)
 (* ill-typed or syntactically broken JSON: Parse must answer with an error *)
 | CMalformed (o : obs)
 (* re-validation of the hand-written scanners and library models against the real ones *)
@@ -49,8 +49,8 @@ Inductive case :=
 
 Definition check_case (c : case) : bool * bool :=
   match c with
-  | CCfg hosts lowers s o =>
-      (obs_eqb (obs_of (init (tbl_fun hosts) (lower_fun lowers) s)) o, spec_b hosts s o)
+  | CCfg hosts lowers files s o =>
+      (obs_eqb (obs_of (fun p => str_mem p files) (init (tbl_fun hosts) (lower_fun lowers) s)) o, spec_b hosts s o)
   | CMalformed o => (match o with OErr => true | _ => false end, true)
   | CKeys strict s found => (str_list_eqb ((if strict then strict_keys else simple_keys) s) found, true)
   | CSeq s m => (Bool.eqb (seq_param s) m, true)
